@@ -23,7 +23,7 @@ Inductive val :=
 | VNone
 | VBool (b : bool)
 | VInt (z : Z)
-| VFloat (tok : str)                       (* a float, as its repr token (json round-trips floats exactly) *)
+| VFloat (tok : str)                       (* a FINITE float, as its repr token (json round-trips it exactly); nan/inf are VOther: NaN/Infinity is not JSON *)
 | VStr (x : str)
 | VBytes (b : bytes)
 | VBytearray (b : bytes)
